@@ -85,6 +85,18 @@ pub fn dispatch(f: &[&str]) -> Option<String> {
         hex(&errb)
       )
     }
+    "globf" => match imdl::verif::glob_filter(&list(f[1]), &text(f[2])) {
+      Ok(b) => format!("OK {}", u8::from(b)),
+      Err(e) => err(e),
+    },
+    "trackers" => match imdl::verif::metainfo_trackers(&unhex(f[1])) {
+      Ok(t) => format!("OK {}", hexlist(&t)),
+      Err(e) => err(e),
+    },
+    "infohash" => match imdl::verif::infohash_of(&unhex(f[1])) {
+      Ok(h) => format!("OK {h}"),
+      Err(e) => err(e),
+    },
     "peer" => match imdl::verif::peer_fetch(&text(f[1]).parse().unwrap(), arr20(f[2])) {
       Ok(b) => format!("OK {}", hex(&b)),
       Err(e) => err(e),
